@@ -7,7 +7,9 @@ Exit codes of ./check: 0 property held on everything explored (known findings ar
 """
 import fcntl, hashlib, json, os, re, shutil, subprocess, sys, time
 
-VERIF = "/verif"
+# The framework is relocatable: everything is found relative to this file (so that a snapshot of
+# the committed tree, e.g. under `vp run`, uses its own specification, generators and caches).
+VERIF = os.path.dirname(os.path.dirname(os.path.realpath(__file__)))
 # The registered checks always run against /repo.  VERIF_REPO / VERIF_SCRATCH exist only so
 # that tools/seedrun.sh can try the checks on a scratch worktree of /repo (a seeded change)
 # without touching /repo: the harness crate is copied into the scratch directory with its
